@@ -24,10 +24,11 @@ ASSUMPTIONS = ["default trash directories only (no --trash-dir)",
                "one virtual-clock tick (61 s) per command, so (path, date) identifies an element"]
 
 SLOTS = ["/home/u/w/a", "/home/u/w/b", "/home/u/w/sub/a", "/home/u/w/sub/deep/c d", "/data/a",
-         "/vol/d/a", "/vol/d/b", "/vol/d/sub/a", "/vol2/x/a", "/home/u/w/a b\nc"]
+         "/vol/d/a", "/vol/d/b", "/vol/d/sub/a", "/vol2/x/a", "/home/u/w/a b\nc", "/home/u/w/...",
+         "/vol/d/....", "/home/u/w/a.trashinfo", "/vol/d/.trashinfo"]
 DIRS = ["/", "/home/u/w", "/home/u/w/sub", "/home/u", "/vol", "/vol/d", "/vol2", "/data"]
 PATTERNS = ["a", "b", "*", "a*", "?", "[ab]", "/home/u/w/*", "/vol/*", "/*/a", "c d", "*c", "zzz",
-            "/vol/d/a", "A"]
+            "/vol/d/a", "A", "...", ".*", "*.trashinfo"]
 
 
 def examples(tier):
